@@ -252,6 +252,10 @@ def head_conf(c, OmegaConf):
         d = {"confmaps": {"part_names": pn, "sigma": 5.0, "output_stride": c["os_c"], "loss_weight": 1.0},
              "pafs": {"edges": [[str(i), str(i + 1)] for i in range(c["edges"])], "sigma": 15.0,
                       "output_stride": c["os_p"], "loss_weight": 1.0}}
+        # the order in which a bottom-up configuration lists its two heads is the user's choice (YAML key
+        # order): half of the cases list `pafs` first; which head gets which stride must not depend on it
+        if (c["parts"] + c["edges"] + c["os_p"] + len(c.get("inputs", []))) % 2:
+            d = {"pafs": d["pafs"], "confmaps": d["confmaps"]}
     return OmegaConf.create(d)
 
 
